@@ -2,6 +2,7 @@ package props
 
 import (
 	"fmt"
+	"os"
 	"sync"
 	"time"
 
@@ -64,13 +65,16 @@ func partStepThrough(c *check.Ctx, a *acc, victims []string) {
 		for i := w; i < len(cases); i += workers {
 			if p == nil || !p.Alive() {
 				var err error
-				p, err = c.WS.StartLab(bin, sut.LabOpts{Frame: 4 * time.Millisecond, RT: "sched", Name: "step"})
+				p, err = c.WS.StartLab(bin, sut.LabOpts{Frame: 4 * time.Millisecond, RT: "sched", Name: "step", Locks: stepLocks})
 				if err != nil {
 					c.Inconc(err.Error())
 					return
 				}
 			}
 			res := e2.StepRun(p, cases[i])
+			if os.Getenv("VERIF_STEP_DEBUG") != "" {
+				fmt.Printf("STEP %s reached=%v overlapped=%v findings=%d inconclusive=%q\n", cases[i], res.GateReached, res.Overlapped, len(res.Findings), res.Inconclusive)
+			}
 			mu.Lock()
 			runs++
 			if res.GateReached {
